@@ -45,8 +45,10 @@ def sample_units(pid, tier, decide):
     for u in decide:
         key = (u["module"], u["fn"])
         if not u.get("no_sample"):
+            if SPEC.get(pid, {}).get("sample_every_unit"):
+                key = key + (u["id"],)
             seen[key] = u  # last unit of each harness function (largest parameters)
-    k = 6 if tier == "quick" else 20
+    k = SPEC.get(pid, {}).get("sample_k") or (6 if tier == "quick" else 20)
     return [dict(u, id="sample:" + u["id"], mode="sample", k=k, timeout=30) for u in seen.values()]
 
 
